@@ -83,9 +83,11 @@ def expected(case, par):
     return dA, df, kappa
 
 
-def call_impl(core, case, par):
+def call_impl(core, case, par, int_typed=False):
     phase, fabric = FAB[case["fab"]]
     A, L, f = case_inputs(case, par.get("delta"))
+    if int_typed:     # the same orientations as an integer-typed array (only for integral entries)
+        A = np.round(A).astype(np.int64)
     D = (L + L.T) / 2
     n = len(f)
     return core.derivatives(
